@@ -33,6 +33,8 @@ def main(argv=None):
     rep = Report(pid, LEVELS.get(pid, "other"), tier, seed)
     rep.write_files = not args.no_evidence
     rep.assumptions = [ASSUMPTIONS[k] for k in ("A1", "A2", "A3", "A7", "A8")]
+    from .budget import install as _install_budget
+    _install_budget(tier, main_process=True)
     try:
         os.environ["SOPHT_REPO"] = args.repo
         from . import driver
